@@ -38,7 +38,8 @@ claim("C16", "DESIGN.md §2 C16",
       "Claims of all four types are assembled through the accessor API / update(**kwargs) from generated values (unicode text, boundary "
       "integers, three currencies, every language/script/region/country enumerated, locations in three input forms, 0..50 references, "
       "optional signature envelope); oracles: from_bytes(to_bytes()) equality and byte-identical re-serialisation, read-back equals a "
-      "plain model, plain ClaimMessage.FromString shows the same values, envelope byte layout; generated v1/v0 legacy claims and "
+      "plain model (also after later update steps that go back to boundary values), plain ClaimMessage.FromString shows the same "
+      "values, envelope byte layout; generated v1/v0 legacy claims (zero fees included) and "
       "recorded real ones decode. URLs: grammar-generated valid spellings, a 36-kind negative catalogue, every forbidden code point at "
       "every position of four URLs, random edits judged by a hand-written reference parser. Exploration level (finite enum sub-domains "
       "are swept completely).",
@@ -104,7 +105,8 @@ claim("C06", "DESIGN.md §2 C06",
       "depth 0..6 with indices from {0,1,2^31-1,2^31,2^31+1,2^32-1,random} on three ledger classes; at every node private/public key, "
       "chain code, fingerprints, depth, child number, xprv/xpub strings and address must equal the reference, public-only derivation "
       "must match, strings re-parse and re-encode identically, 1-character corruptions and 14 classes of structurally invalid keys must "
-      "be rejected; Base58(Check) payload round trips; mnemonic integer round trip and PBKDF2 seed; two fresh ledgers generate identical "
+      "be rejected; Base58(Check) payload round trips, every Base58 string of 1..3 characters and truncated-checksum encodings "
+      "(exhaustive); mnemonic integer round trip and PBKDF2 seed; two fresh ledgers generate identical "
       "address lists equal to reference m/0/n, m/1/n under generated gap histories.",
       "The reference (vlib/ref/secp256k1.py, bip32.py, base58.py) is trusted after its self-test on published vectors and a cross-check "
       "against coincurve / python-ecdsa.")
@@ -132,7 +134,9 @@ claim("C15", "DESIGN.md §2 C15",
       "Every output and input template except multisig is generated with data lengths across 0..70000 incl. 75/76/255/256/65535/65536 and "
       "lock heights of every byte width; source must equal the reference's minimal-push bytes and parse back to the same template and values. "
       "Near-template scripts (12 token-level mutations) and byte soup are judged by the reference classifier: a claim/update/support is never "
-      "reported (or stored by txo_to_row) as spendable payment and vice versa (hard direction, always asserted); unknown scripts must raise.",
+      "reported (or stored by txo_to_row) as spendable payment and vice versa (hard direction, always asserted); unknown scripts must raise. "
+      "Input.spend_time_lock must keep a redeem script in another wallet's encoding verbatim; atheris campaigns run the same "
+      "classification oracle over raw bytes.",
       "Truncated final pushes and claim prefixes with non-standard tails are a don't-care in the soft direction; 20 real main-net scripts replayed.")
 claim("C07", "DESIGN.md §2 C07",
       "model-based property testing with really mined chains against an independent header/PoW/retarget reference; exhaustive enumeration of single damages before reopen and of retarget arithmetic inputs",
@@ -165,7 +169,8 @@ claim("C18", "DESIGN.md §2 C18",
       "pending rows, API deletions (also crashed after j file removals), files removed / dropped in behind the manager's back (known, "
       "pending, unknown, invalid names, >500 files to cross the batch flush), rows deleted, clean and unclean restarts, repeated restarts. "
       "After every restart: completed_blob_hashes is a subset of the files, every valid-named file has a finished row, every formerly "
-      "finished row without file is pending, an immediately repeated restart reports exactly the files; after an API deletion the hash is "
+      "finished row without file is pending, an immediately repeated restart reports exactly the files, what the announcer is handed "
+      "(get_blobs_to_announce) has its file; the manager may share the DHT node's data store across in-process restarts; after an API deletion the hash is "
       "no longer reported as completed (what the deletion leaves in directory / database is recorded, not judged).",
       "Crash = the pending database task is dropped at a generated point (process death between file and database write); file-system "
       "level corruption of sqlite itself is not modelled.")
@@ -188,7 +193,7 @@ claim("C01", "DESIGN.md §2 C01",
       "close (handle or future) / reopen-same-peer / new peer / second length announcement ops. The model (hashlib only) decides after "
       "every op: verified iff a writer delivered exactly n bytes with the right SHA-384 while writeable; any file named by the hash has "
       "those bytes; completion callback exactly once iff verified; losers closed; reader returns the content; only correct writers' "
-      "futures get a result.",
+      "futures get a result; a second download after the copy was consumed / deleted / closed under an open reader verifies and reads again.",
       "Real threads are only the executor's file write (each case gets a fresh loop with a one-thread executor and is drained without "
       "wall-clock waits); writers opened after the winning write are a don't-care.")
 claim("C02", "DESIGN.md §2 C02",
